@@ -40,7 +40,8 @@ try:
         shutil.copy2(os.path.join(out, 'demo', f), os.path.join(d, f))
     env = dict(os.environ, CARGO_NET_OFFLINE='true')
     is_example = any(f.endswith('examples/seed_demo.rs') for f in demos)
-    demo_cmd = 'cargo run -q --offline -p autosar-data --example seed_demo' if is_example else 'cargo test --workspace --offline seed'
+    pkg = 'autosar-data-specification' if any(f.startswith('autosar-data-specification/examples/') for f in demos) else 'autosar-data'
+    demo_cmd = ('cargo run -q --offline -p %s --example seed_demo' % pkg) if is_example else 'cargo test --workspace --offline seed'
     def sh(cmd):
         r = subprocess.run(cmd, shell=True, cwd=d, env=env, capture_output=True, text=True)
         return r.returncode, (r.stdout + r.stderr)[-1500:]
